@@ -56,8 +56,17 @@ def coq_rows(rows):
     return "[" + ";\n  ".join("(%s, %s, %d, %s)" % (fix(d), fix(t), p, "true" if f else "false") for d, t, p, f, _ in rows) + "]"
 
 
+def d3(v):
+    assert 0 <= v < 64 ** 3
+    return chr(48 + (v >> 12)) + chr(48 + ((v >> 6) & 63)) + chr(48 + (v & 63))
+
+
+def pack(lv, k, a, b):
+    return d3(lv) + chr(48 + k) + d3(a) + d3(b)
+
+
 def coq_run(name, run, tabs=None):
-    """Definitions <name>_gg : gdag, <name>_cap : nat, <name>_tr : option (list glabel) (compact N encoding).
+    """Definitions <name>_gg : gdag, <name>_cap : nat, <name>_tr : option (list glabel) (events as text).
     tabs: dict content -> name of already emitted tables (identical graphs are emitted once per file)."""
     import hashlib
     if tabs is None:
@@ -79,11 +88,17 @@ def coq_run(name, run, tabs=None):
     for line in run.raw:
         f = line.split(" ")
         if f[0] == "graph":
-            flat.append("0;11;%s;0" % f[1])
+            flat.append(pack(0, 11, int(f[1]), 0))
         else:
             lvl, kind, a, b, x = int(f[1]), f[2], int(f[3]), int(f[4]), int(f[5])
-            flat.append("%d;%d;%d;%d" % (lvl + 1, KINDS[kind], a, x if kind == "end" else max(b, 0)))
-    out += "Definition %s_tr : option (list (glabel unit unit)) := decode_trace [\n %s].\n" % (name, ";\n ".join(flat))
+            flat.append(pack(lvl + 1, KINDS[kind], a, x if kind == "end" else max(b, 0)))
+    # long literals overflow coqc's stack: chunks of 1000 events
+    chunks = []
+    for c in range(0, len(flat), 1000):
+        cn = "%s_c%d" % (name, len(chunks))
+        out += "Definition %s : bstr := \"%s\"%%bstr.\n" % (cn, "".join(flat[c:c + 1000]))
+        chunks.append(cn)
+    out += "Definition %s_tr : option (list (glabel unit unit)) := decode_trace [%s].\n" % (name, "; ".join(chunks))
     return out
 
 
